@@ -10,6 +10,7 @@
 //!   c08.parse.outside   sequences with ill-formed statements (wrong arity / type / value, unknown keywords)
 //!   c08.kw              exhaustively every keyword of Table A.1 with generated well-formed operands
 //!   c08.kw.outside      every keyword with too few / too many / wrong operands
+//!   c08.inline          where inline image data ends: bytes after `ID` → real `parse_ops` vs Model/ContentInline
 //!   c08.spec            the harness' copy of Table A.1 vs Spec/OperatorTable.lean (every keyword)
 //! Oracles (the real library against the property itself):
 //!   c08.roundtrip       parse_ops(serialize_ops(ops)) == ops with numeric equality on reals
@@ -232,7 +233,7 @@ fn gen_parse_case(seed: u64, name: &str, case: u64, outside: bool, hist: &mut dy
             toks.extend(stmt_toks(&[s]));
             expected = None;
         } else if k == 6 {
-            let img = if rng.chance(1, 5) { None } else { Some((1 + rng.below(3) as u8, 1 + rng.below(3) as u8, *rng.pick(b"ABCxyz019")) ) };
+            let img = if rng.chance(1, 5) { None } else { Some((1 + rng.below(3) as u8, 1 + rng.below(3) as u8, *rng.pick(b"ABCxyz019\nEI ")) ) };
             // stray operands in front of BI are dropped with the buffer
             if outside && rng.chance(1, 3) {
                 toks.push(Tok::Prim(Primitive::Integer(5)));
@@ -451,6 +452,60 @@ fn stream_spec(driver: &Driver, seed: u64, per_kw: u64) -> Stream {
         }
         st.count(&format!("outcome={}", m.split(' ').next().unwrap_or("")));
         st.case(rq, m, i, true);
+    }
+    st
+}
+
+// ---------------------------------------------------------------------------------------------------
+// c08.inline: where the data of an inline image ends (byte level, model = Model/ContentInline.lean)
+
+fn stream_inline(driver: &Driver, ctx: &Ctx, seed: u64, n: u64) -> Stream {
+    let mut st = Stream::new("c08.inline", true);
+    let mut reqs = vec![];
+    let mut rests = vec![];
+    for case in 0..n {
+        let mut rng = Rng::derive(seed, "c08.inline", case);
+        let mut rest: Vec<u8> = vec![*rng.pick(b"  \n\r\t")];
+        for _ in 0..rng.usize(8) {
+            rest.push(*rng.pick(b"Ax\n\nEEII \r0"));
+        }
+        let term: &[u8] = match rng.below(8) {
+            0 => b" EI",
+            1 => b"\rEI",
+            2 => b"\r\nEI",
+            _ => b"\nEI",
+        };
+        st.count(&format!("terminator={:?}", String::from_utf8_lossy(term)));
+        rest.extend_from_slice(term);
+        rest.extend_from_slice(*rng.pick(&[&b" Q\n"[..], b"\nq 1 w\n", b"", b"\n", b" Q\nq BI /W 1 /H 1 /BPC 8 /CS /G ID B\nEI S\n", b"Q\n"]));
+        reqs.push(format!("c08.inline {}", hex(&rest)));
+        rests.push(rest);
+    }
+    let resp = driver.ask(&reqs);
+    for ((rq, m), rest) in reqs.iter().zip(resp.iter()).zip(rests.iter()) {
+        let mut bytes = b"BI /W 1 /H 1 /BPC 8 /CS /G ID".to_vec();
+        bytes.extend_from_slice(rest);
+        let imp = match ctx.parse(&bytes, false) {
+            Ok(ops) => match ops.first() {
+                Some(Op::InlineImage { image }) => {
+                    let d = image.inner.data(&pdf::object::NoResolve).map(|d| d.to_vec()).unwrap_or_default();
+                    format!("ok {} {}", hex(&d), show_ops(&ops[1..]))
+                }
+                _ => "no-image".to_string(),
+            },
+            Err(e) => e,
+        };
+        // the model answers with the bytes that follow EI: read them with the real reader
+        let f: Vec<&str> = m.split(' ').collect();
+        let model = if f.len() == 3 && f[0] == "ok" {
+            match crate::driver::unhex(f[2]).map(|t| ctx.parse(&t, false)) {
+                Some(Ok(ops)) => format!("ok {} {}", f[1], show_ops(&ops)),
+                Some(Err(e)) => e,
+                None => "bad-model-answer".to_string(),
+            }
+        } else if m == "none" { "err".to_string() } else { m.clone() };
+        st.count(&format!("outcome={}", model.split(' ').next().unwrap_or("")));
+        st.case(rq, &model, &imp, true);
     }
     st
 }
